@@ -34,7 +34,7 @@ ASSUMPTIONS = [
 ]
 COMPONENTS = {"real": ["StochasticAtomGraph, AtomGraph.generate / to_mol, SchulzZimm.draw_mw"], "stub": ["numpy bit generator (SimRng)"]}
 BT = {1.0: 1, 2.0: 2, 3.0: 3, 1.5: 12}
-NONDETERMINISM_INVARIANTS = ("same_schedule_different_molecule",)
+NONDETERMINISM_INVARIANTS = ("same_schedule_different_molecule", "equal_seed_different_molecule")
 
 
 def plan(tier):
@@ -55,6 +55,7 @@ def spec_from_seed(run_seed, tier):
     text = re.sub(r"\|[a-z_]+\([^)]*\)\|", rep, text)
     abort_first = {"at": rnd.choice([0, 1, 2, 3, 5, 8, 13, 21]), "how": rnd.choice(["raise", "interrupt"])} if rnd.random() < 0.12 else None
     return {"kind": "atomgraph", "prop": "C18", "text": text, "tags": sorted(tags), "regenerate": rnd.choice([0, 0, 1, 2]), "abort_first": abort_first,
+            "copies": rnd.randrange(1, 1000) if rnd.random() < 0.25 else None,
             "sched": {"seed": rnd.randrange(1 << 48), "choice_policy": rnd.choice(["faithful", "uniform_support", "rare", "mix", "first", "last"]),
                       "draw_policy": rnd.choice(["natural", "low", "mid", "tails"]), "script": None, "budget": 3000}}
 
@@ -178,6 +179,45 @@ def execute(spec):
                     v["msg"] = "[generate() called again on the same AtomGraph] " + v["msg"]
                 if viols:
                     break
+        # equal seeds, equal molecules -- also for an object and its deep copy: both carry a generator in the same state, so
+        # each of them generates what a fresh object with that seed generates (real numpy generators here, not the scheduler)
+        if spec.get("copies") and not viols:
+            import copy as _copy
+
+            import numpy as np
+
+            def gen_with(make):
+                w = World(Scheduler(1), embed="stub")
+                with w:
+                    try:
+                        objs = make()
+                        out = []
+                        for o in objs:
+                            o.generate()
+                            out.append(_canon(o))
+                        return out
+                    except (BudgetExceeded, DrawDiverges):
+                        return None
+                    except SimAbort:
+                        raise
+                    except Exception as e:
+                        return ["exception " + type(e).__name__]
+
+            seed = spec["copies"]
+            mol_c = g.Molecule(text)
+            sg_c = mol_c.gen_stochastic_atom_graph(True)
+            ref = gen_with(lambda: [g.AtomGraph(sg_c, rng=np.random.default_rng(seed))])
+
+            def pair():
+                proto = g.AtomGraph(sg_c, rng=np.random.default_rng(seed))
+                cp = _copy.deepcopy(proto)
+                return [cp, proto] if seed % 2 else [proto, cp]
+
+            both = gen_with(pair)
+            stats["copy_pairs"] = 1
+            if ref is not None and both is not None and not ref[0].startswith("exception") and any(x != ref[0] for x in both):
+                viol("equal_seed_different_molecule", f"a fresh AtomGraph with seed {seed} generates {ref[0]}; an AtomGraph with that seed and its deep copy "
+                     f"(generator in the same state) generate {both}")
         return _result(spec, viols, world, sched, stats, n_multi, n_inst)
     except WallTimeout:
         return {"harness_error": "wall-clock watchdog fired", "violations": []}
